@@ -54,7 +54,11 @@ func main() {
 				}
 			}
 		}
-		fmt.Print(p.GenAnchorTable(names))
+		if len(os.Args) > 2 && os.Args[2] == "types" {
+			fmt.Print(p.GenTypeTable([]string{core.PkgBttest, core.PkgGcsemu, core.PkgGcsutil}))
+		} else {
+			fmt.Print(p.GenAnchorTable(names))
+		}
 	case "replay":
 		os.Exit(cmdReplay(os.Args[2:]))
 	case "selftest":
